@@ -12,7 +12,7 @@ import time
 
 VERIF = os.path.dirname(os.path.dirname(os.path.abspath(__file__)))
 REPO = os.environ.get("VERIF_REPO", "/repo")
-WORK = os.path.join(VERIF, ".work")
+WORK = os.environ.get("VERIF_WORK") or os.path.join(VERIF, ".work")
 AIRLINT_DIR = os.path.join(VERIF, "airlint")
 AIRLINT = os.path.join(AIRLINT_DIR, "target", "release", "airlint")
 
